@@ -29,15 +29,11 @@ def getS (a : Nat → K) (s : Slc) : Nat → K := fun k => a (s.idx k)
 
 /-- `a[d] = v` (entry `k` of `v` goes to the `k`-th selected index). -/
 def setSlc (a : Nat → K) (d : Slc) (v : Nat → K) : Nat → K :=
-  fun i => match d.find i with
-    | some k => v k
-    | none => a i
+  fun i => if 0 ≤ d.rel i ∧ d.rel i < (d.count : Int) then v (d.rel i).toNat else a i
 
 /-- `a[d] += v`. -/
 def addSlc [Add K] (a : Nat → K) (d : Slc) (v : Nat → K) : Nat → K :=
-  fun i => match d.find i with
-    | some k => a i + v k
-    | none => a i
+  fun i => if 0 ≤ d.rel i ∧ d.rel i < (d.count : Int) then a i + v (d.rel i).toNat else a i
 
 /-- `np.sum` of the first `n` entries of a sequence. -/
 def sumN [Zero K] [Add K] : Nat → (Nat → K) → K
